@@ -91,6 +91,9 @@ type PolicySpec struct {
 	// WriteLatUs: simulated duration of every durable write (the engine's clock has
 	// moved on when the call returns); 0 keeps consecutive engine steps at one instant.
 	WriteLatUs int64 `json:"writeLatUs,omitempty"`
+	// Yields: the scheduling points inserted in front of the engine's accesses to
+	// shared in-memory state are active (first incarnation only).
+	Yields bool `json:"yields,omitempty"`
 }
 
 // CrashSpec is one process death.
